@@ -10,9 +10,6 @@ var typesString = types.Typ[types.String]
 
 func typesPointer(t types.Type) types.Type { return types.NewPointer(t) }
 
-type jsonDoc struct{}
-
-func registerJSON(m map[string]modelFn) {}
 
 type fsModel struct {
 	crashAt int
